@@ -25,6 +25,13 @@ def check(repo: Repo, rep: Report) -> None:
         "so delivery order is subscription order.")
     rep.assumptions += ["is_stopped is set by Observer.on_error/on_completed before the core runs (decided under C01)"]
     SC.rules(rep, {"B1-snapshot": 3, "B2-state-before-callout": 3, "B3-subscribe-branches": 2, "B4-check-disposed": 3, "B5-dispose": 1})
+    # state fields are read under the lock only; fan-outs deliver parameters / locked snapshots
+    _cls = repo.fn("reactivex/subject/subject.py", "Subject")
+    SC.rule_locked_reads(rep, _cls)
+    for _mn in ("_on_next_core", "_on_error_core", "_on_completed_core"):
+        _m = _cls.child(_mn) or repo.fn("reactivex/subject/subject.py", "Subject").child(_mn)
+        if _m is not None:
+            SC.rule_delivery_argument(rep, _m)
     rep.rule("B6-inner-subscription", "InnerSubscription.dispose removes exactly its observer, idempotently; registration is append-only", floor=3)
     rep.rule("B7-element-keeps-subscription", "the observer wrappers' on_next never stops or detaches the observer (exception paths included)", floor=2)
     from .common_own import rule_element_not_terminal
